@@ -151,7 +151,9 @@ def model_desc(draw, depth=0, max_fields=6):
 # ---- values -------------------------------------------------------------------------------------------------------------
 _UINT_EDGES = [0, 1, 0xFF, 0x100, 0xFFFF, 0x10000, 0xFFFFFFFF, 0x100000000, 2 ** 64 - 1]
 _TEXT = st.one_of(st.text(alphabet='ab/ =%', max_size=6), st.text(max_size=8),
-                  st.sampled_from(['', 'é', '漢字', '😀x', 'Ω≈ç√', 'a' * 252, 'é' * 127, 'é' * 200]))
+                  st.sampled_from(['', 'é', '漢字', '😀x', 'Ω≈ç√', 'a' * 252, 'é' * 127, 'é' * 200,
+                                   # characters that codecs and text tools like to treat specially
+                                   '\ufeffbom', '\ufeff', 'a\x00b', '\x00', ' x ', '\r\n', 'e\u0301', '\u200b', '\ufffd']))
 _BYTES_SPEC = st.one_of(st.binary(max_size=8).map(lambda b: {'hex': b.hex()}),
                         st.sampled_from([0, 1, 252, 253, 254, 300]).map(lambda n: {'len': n}),
                         st.sampled_from([65535, 65536, 65540]).map(lambda n: {'len': n}))
@@ -188,7 +190,8 @@ def value_for(fd, allow_none=True):
     elif k == 'text':
         s = _TEXT
     elif k == 'name':
-        s = S.name(0, 4, 12)
+        # (now and then a name whose encoding is longer than 252 bytes: its length then takes 3 bytes)
+        s = st.one_of(S.name(0, 4, 12), S.name(0, 4, 12), S.name(0, 4, 12), S.name(1, 3, 300))
     elif k == 'model':
         s = model_value(fd['m'])
     elif k == 'rep':
